@@ -14,7 +14,8 @@ from .core import AnalysisError
 CONFUSABLE = [{"dom", "cod"}, {"left", "right"}, {"l", "r"}, {"cups", "caps"}, {"Cup", "Cap"}, {"boxes", "offsets"},
               {"cap", "cup"}, {"start", "stop"}, {"real", "imag"}, {"classical", "quantum"}, {"bits", "qubits"},
               {"then", "tensor"}, {"subs", "lambdify"}, {"sin", "cos"}, {"Z", "X"}, {"inputs", "outputs"},
-              {"LShift", "RShift"}, {"Add", "Sub"}, {"Lt", "Gt"}, {"LtE", "GtE"}, {"Eq", "NotEq"}, {"Mult", "Div"}, {"n_legs_in", "n_legs_out"}, {"udom", "ucod"}, {"_left", "_right"}, {"dagger", "conjugate"}]
+              {"LShift", "RShift"}, {"Add", "Sub"}, {"Lt", "Gt"}, {"LtE", "GtE"}, {"Eq", "NotEq"}, {"Mult", "Div"}, {"n_legs_in", "n_legs_out"}, {"udom", "ucod"}, {"_left", "_right"}, {"dagger", "conjugate"},
+              {"id", "cups", "caps", "swap", "l", "r"}, {"ones", "zeros", "eye", "identity"}]
 _PARTNER = {}
 for _s in CONFUSABLE:
     for _a in _s:
@@ -84,7 +85,13 @@ class _Canon(ast.NodeTransformer):
 
     def visit_BoolOp(self, n):
         self.generic_visit(n)
-        n.values = sorted(n.values, key=lambda x: ast.dump(x))
+        flat = []
+        for v in n.values:            # (a or b) or c  ==  a or b or c
+            if isinstance(v, ast.BoolOp) and type(v.op) is type(n.op):
+                flat += v.values
+            else:
+                flat.append(v)
+        n.values = sorted(flat, key=lambda x: ast.dump(x))
         return n
 
 
